@@ -96,6 +96,7 @@ pub fn block_on<F: Future>(budget: Duration, fut: F) -> Result<F::Output, Hang> 
         .rng_seed(tokio::runtime::RngSeed::from_bytes(&seed))
         .build()
         .expect("tokio runtime");
+    pool_reset();
     let notify = Arc::new(tokio::sync::Notify::new());
     *GLOBAL_NOTIFY.lock().unwrap_or_else(|e| e.into_inner()) = Some(notify.clone());
     let out = rt.block_on(async {
@@ -184,6 +185,74 @@ impl<T> Future for JoinHandle<T> {
     }
 }
 
+/// The simulated blocking pool: at most `limit` closures run at once (0 = no limit, the
+/// default); further ones queue in FIFO order until a running one finishes - what tokio does
+/// when `max_blocking_threads` is reached.
+struct BlockingPool {
+    limit: usize,
+    running: usize,
+    queue: std::collections::VecDeque<Box<dyn FnOnce() + Send>>,
+}
+static POOL: std::sync::Mutex<BlockingPool> = std::sync::Mutex::new(BlockingPool { limit: 0, running: 0, queue: std::collections::VecDeque::new() });
+
+/// Set the size of the simulated blocking pool for the current run (reset by `block_on`).
+pub fn set_blocking_pool_limit(limit: usize) {
+    POOL.lock().unwrap_or_else(|e| e.into_inner()).limit = limit;
+}
+
+fn pool_reset() {
+    let mut p = POOL.lock().unwrap_or_else(|e| e.into_inner());
+    p.limit = 0;
+    p.running = 0;
+    p.queue.clear();
+}
+
+/// Run `job` on a simulated thread now, or queue it if the pool is full.
+fn pool_submit(job: Box<dyn FnOnce() + Send>) {
+    let run_now = {
+        let mut p = POOL.lock().unwrap_or_else(|e| e.into_inner());
+        if p.limit == 0 || p.running < p.limit {
+            p.running += 1;
+            Some(job)
+        } else {
+            kernel::count("fault.blocking_pool_full_closure_queued");
+            p.queue.push_back(job);
+            None
+        }
+    };
+    if let Some(job) = run_now {
+        pool_start(job);
+    }
+}
+
+fn pool_start(job: Box<dyn FnOnce() + Send>) {
+    let wrapped = move || {
+        job();
+        // hand the pool thread to the next queued closure, if any
+        let next = {
+            let mut p = POOL.lock().unwrap_or_else(|e| e.into_inner());
+            match p.queue.pop_front() {
+                Some(n) => Some(n),
+                None => {
+                    p.running = p.running.saturating_sub(1);
+                    None
+                }
+            }
+        };
+        if let Some(n) = next {
+            pool_start(n);
+        }
+    };
+    match kernel::current() {
+        Some((k, _)) => {
+            k.spawn_thread("blocking".to_string(), Box::new(wrapped));
+        }
+        None => {
+            std::thread::spawn(wrapped);
+        }
+    }
+}
+
 pub fn spawn_blocking<F, R>(f: F) -> JoinHandle<R>
 where
     F: FnOnce() -> R + Send + 'static,
@@ -206,14 +275,9 @@ where
         };
         let _ = tx.send(r);
     };
-    match kernel::current() {
-        Some((k, _)) => {
-            k.spawn_thread("blocking".to_string(), Box::new(body));
-            yield_to_foreign();
-        }
-        None => {
-            std::thread::spawn(body);
-        }
+    pool_submit(Box::new(body));
+    if kernel::current().is_some() {
+        yield_to_foreign();
     }
     JoinHandle { rx }
 }
